@@ -14,6 +14,14 @@ def compile(r: str):
     transitions = [[]]
     stack = [expr]
 
+    # The scanner needs the error state, also when no input leads to it
+    # (for example '.*'), so it is always part of the automaton:
+    if expr.null not in state_numbers:
+        states.append(expr.null)
+        state_numbers[expr.null] = len(state_numbers)
+        transitions.append([])
+        stack.append(expr.null)
+
     while stack:
         state = stack.pop()
         state_number = state_numbers[state]
